@@ -57,6 +57,10 @@ def run(ctx):
     p = ctx.p
     typer = typer_for(ctx)
     links = {k for k, (m, _) in link_fields(p).items() if m == "NodeMixin"}
+    # private state of a NodeMixin node: the link fields and whatever is cached from them (memo fields): all of it belongs
+    # to the link node itself, none of it may be read from / written to the target
+    from ..memo import memo_fields
+    links = links | {k for k, mm in memo_fields(p).items() if mm.cls == "NodeMixin"}
     ga = p.func("SymlinkNodeMixin", "__getattr__")
     sa = p.func("SymlinkNodeMixin", "__setattr__")
     ctx.touch(ga)
